@@ -17,6 +17,7 @@ type c02logger struct {
 	Name    string   `json:"name"`
 	Entries []string `json:"entries"` // tag list entries as meant (trimmed)
 	Raw     string   `json:"raw"`     // as written in the configuration
+	Mem     bool     `json:"user_logger_kind,omitempty"` // a user-written logger kind (VMem) that reports a decorated name
 }
 
 type c02case struct {
@@ -187,11 +188,16 @@ func c02gen(r *rand.Rand, universe []string) *c02case {
 		return []string{"appenderRef.ref", "appender-ref.ref", "appender_ref.ref", "AppenderRef.ref", "appenderRef[0].ref"}[r.IntN(5)]
 	}
 	tagsKey := func() string { return []string{"tags", "Tags"}[r.IntN(2)] }
+	cfg["appender.unused.type"] = "Discard" // (a configuration needs an appender section even if every logger records by itself)
 	for i := range c.Loggers {
 		lg := &c.Loggers[i]
-		cfg["appender.s"+lg.Name+".type"] = "VRec"
-		cfg["logger."+lg.Name+".type"] = "Logger"
-		cfg["logger."+lg.Name+"."+refKey()] = "s" + lg.Name
+		if lg.Mem = r.IntN(5) == 0; lg.Mem {
+			cfg["logger."+lg.Name+".type"], cfg["logger."+lg.Name+".decorate"] = "VMem", "true"
+		} else {
+			cfg["appender.s"+lg.Name+".type"] = "VRec"
+			cfg["logger."+lg.Name+".type"] = "Logger"
+			cfg["logger."+lg.Name+"."+refKey()] = "s" + lg.Name
+		}
 		if lg.Raw == "<absent>" {
 			continue
 		}
@@ -224,11 +230,14 @@ func (c *c02case) owner(tag string) string {
 	lit := map[string]string{}
 	for _, lg := range c.Loggers {
 		for _, e := range lg.Entries {
-			lit[e] = lg.Name
+			lit[e] = "s" + lg.Name
+			if lg.Mem {
+				lit[e] = "m" + lg.Name
+			}
 		}
 	}
 	if n, ok := lit[tag]; ok {
-		return "s" + n
+		return n
 	}
 	best, bestLen := "", -1
 	for _, p := range c02prefixes(tag) {
@@ -237,7 +246,7 @@ func (c *c02case) owner(tag string) string {
 		}
 	}
 	if bestLen >= 0 {
-		return "s" + best
+		return best
 	}
 	if c.Root {
 		return "sroot"
@@ -464,9 +473,13 @@ func c02Worker(w *W) {
 				seen[id] = append(seen[id], "console")
 			}
 			if hid != "" {
-				if got := seen[hid]; len(got) != 1 || got[0] != "sl0" {
+				wantH := "sl0"
+				if c.Loggers[0].Mem {
+					wantH = "ml0"
+				}
+				if got := seen[hid]; len(got) != 1 || got[0] != wantH {
 					okAll = false
-					w.Violate("C02:handle-misrouted", fmt.Sprintf("a raw write through the handle named l0 arrived at %v, expected exactly [sl0]", got), cs)
+					w.Violate("C02:handle-misrouted", fmt.Sprintf("a raw write through the handle named l0 arrived at %v, expected exactly [%s]", got, wantH), cs)
 				}
 				delete(seen, hid)
 			}
@@ -531,7 +544,7 @@ func c02Worker(w *W) {
 func init() {
 	register(&Prop{
 		ID: "C02", Level: "exploration", MinDistinct: 30, Worker: c02Worker,
-		Rule: "each worker registers a seeded universe of 80 valid tags (names beginning with _app_/_rpc_ through the helper API with multi-word parts; 1-4 segments over a 12-segment pool incl. one-character segments and 8-12 character ones (names and wildcard prefixes up to the 36-byte limit), with/without leading underscore, heavy prefix sharing) + the 2 built-in ones; cases: 1-4 sync loggers + optional root, each with a private recording appender; tag lists mix registered literals, unregistered literals, wildcards P_* for every proper prefix P in the universe and for whole registered tags, " +
+		Rule: "each worker registers a seeded universe of 80 valid tags (names beginning with _app_/_rpc_ through the helper API with multi-word parts; 1-4 segments over a 12-segment pool incl. one-character segments and 8-12 character ones (names and wildcard prefixes up to the 36-byte limit), with/without leading underscore, heavy prefix sharing) + the 2 built-in ones; cases: 1-4 sync loggers + optional root, each with a private recording appender (one in five loggers is of a user-written kind that records by itself and reports a decorated name); tag lists mix registered literals, unregistered literals, wildcards P_* for every proper prefix P in the universe and for whole registered tags, " +
 			"blanks/empty entries/repeated entries, random key spelling; 1/3 of the cases carry one of the four stated errors (duplicate tag string across loggers, root with tags, logger without tags in 6 spellings, malformed wildcard in 8 shapes). Each map is Refreshed 3x (Destroy between; Go randomises map iteration each time) and one event per registered tag is routed. " +
 			"Oracle: literal owner, else longest proper underscore-delimited prefix wildcard, else root/console; exactly one sink per event. One further worker registers 70000 (thorough 300000) tags in four name classes and routes one event per tag. Non-trivial/distinct = distinct (error class | #loggers, #wildcards, nested wildcards present, root configured) classes among cases that matched.",
 		Assumptions: []string{"the bare wildcard '_*' (empty prefix) and wildcards with a second '*' that still end in '_*' are not generated"},
